@@ -10,6 +10,8 @@
     ser xml_write  <cdata> <gt> <indent> <decl> <doctype> <path> <tree>
     ser xml_string_norm <cdata> <gt> <indent> <decl> <doctype> <path> <tree>
         `serialize_xml_string_with_normalizer` with the fullwidth-forms normalizer (`fullwidthNorm`)
+    ser xml_write_norm <cdata> <gt> <indent> <decl> <doctype> <path> <tree>
+        `serialize_xml_write_with_normalizer` called directly, same normalizer: outcome and the bytes written
 
   <cdata>, <suppress> : `-` or comma-separated name ids;  <gt> : 0 | 1
   <indent>  : `-` (no indentation) | `i` (empty suppress list) | `i<ids>`
@@ -125,6 +127,11 @@ def handleSer (st : DState) : List String → Option String
       let (t, p) ← parseTreeAt path toks
       some (showOutcome st.env (fun s => "ok " ++ encStr s)
         (serializeXmlStringWith (normEscapers fullwidthNorm) st.env pr t p))
+  | "xml_write_norm" :: cd :: gt :: ind :: decl :: dt :: path :: toks => do
+      let pr : XmlParams := ⟨← parseIndent ind, ← parseNatList cd, ← parseDecl decl, ← parseDoctype dt,
+        ← parseBool01 gt⟩
+      let (t, p) ← parseTreeAt path toks
+      some (showWritten st.env (serializeXmlWriteWith (normEscapers fullwidthNorm) st.env pr t p))
   | "xml_write" :: cd :: gt :: ind :: decl :: dt :: path :: toks => do
       let pr : XmlParams := ⟨← parseIndent ind, ← parseNatList cd, ← parseDecl decl, ← parseDoctype dt,
         ← parseBool01 gt⟩
